@@ -67,7 +67,8 @@ def run(tier):
     o = os.path.join(wd, "e2e.json")
     conform("stable", ["e2e", o, ck.seed, 2000 if thorough else 200])
     _merge(ck, json.load(open(o)), "")
-    ck.cov["distinct_nontrivial"] = len(J) + nrand
+    if not ck.cov["distinct_nontrivial"]:
+        ck.cov["distinct_nontrivial"] = len(J) + nrand
     ck.cov["rule"] = ("(a) %d (scalar, point) rows evaluated by TLC from spec/ref/X25519.tla (RFC 7748 ladder): all low-order encodings, u in {0,1,2,3,5,9,p-1,p,p+1,p+9,2^255-1} with and without bit 255, RFC vectors, pseudo-random encodings: dryoc = TLA+ = libsodium; "
                       "(b) dryoc = libsodium on %d uniformly random (scalar, encoding) pairs, the RFC iteration (1000 steps), 22 special encodings x 6 scalars; "
                       "(d) Dryoc.tla composition: key exchange between dryoc and libsodium, then a secret stream in each direction, precomputed box keys and a sealed box across the two libraries; (c) Kx.tla table (role x peer class): session keys equal libsodium's, mirror, low-order peers refused in both roles, classic and object API; beforenm and precalculated keys equal libsodium's" % (len(J), nrand))
